@@ -128,7 +128,7 @@ func directivesSeq2(s string) iter.Seq2[string, string] {
 // parseDirectives parses a string of cache directives and returns a map
 // where the keys are the directive names and the values are the arguments.
 func parseDirectives(s string) map[string]string {
-	return addDirectives(make(map[string]string), s)
+	return parseDirectiveLines([]string{s})
 }
 
 // parseDirectiveLines parses the Cache-Control field lines of a message. Several
@@ -138,34 +138,54 @@ func parseDirectives(s string) map[string]string {
 // lines that follow it.
 func parseDirectiveLines(lines []string) map[string]string {
 	m := make(map[string]string)
+	var noCache []string
 	for _, line := range lines {
-		addDirectives(m, line)
+		noCache = addDirectives(m, line, noCache)
 	}
-	return m
+	return mergeNoCache(m, noCache)
 }
 
-func addDirectives(m map[string]string, s string) map[string]string {
+// addDirectives adds the directives of one field line to m. A directive given
+// twice: the first occurrence is used (RFC 9111 §4.2.1: "either the first
+// occurrence should be used or the response should be considered stale"), so
+// that a later 'max-age=31536000' cannot extend a 'max-age=0'. no-cache is the
+// exception (see mergeNoCache): the arguments of its later occurrences are
+// appended to noCache, which is returned.
+func addDirectives(m map[string]string, s string, noCache []string) []string {
 	for key, value := range directivesSeq2(s) {
-		// A directive given twice: the first occurrence is used (RFC 9111
-		// §4.2.1: "either the first occurrence should be used or the response
-		// should be considered stale"), so that a later 'max-age=31536000'
-		// cannot extend a 'max-age=0'. no-cache is the exception: an unqualified
-		// one (the stricter form) is never relaxed by a qualified one, wherever
-		// it stands, and two qualified ones name the fields of both lists.
-		if prev, dup := m[key]; dup {
-			if key != "no-cache" {
-				continue
+		if _, dup := m[key]; dup {
+			if key == "no-cache" {
+				noCache = append(noCache, value)
 			}
-			prevFields := ParseQuotedString(prev)
-			if prevFields == "" {
-				continue
-			}
-			if fields := ParseQuotedString(value); fields != "" {
-				value = quoteString(prevFields + "," + fields)
-			}
+			continue
 		}
 		m[key] = value
 	}
+	return noCache
+}
+
+// mergeNoCache combines the later occurrences of no-cache with the first: an
+// unqualified one (the stricter form) is never relaxed by a qualified one,
+// wherever it stands, and several qualified ones name the fields of all their
+// lists. The lists are joined once, so the work is linear in their length.
+func mergeNoCache(m map[string]string, later []string) map[string]string {
+	if len(later) == 0 {
+		return m
+	}
+	first := ParseQuotedString(m["no-cache"])
+	if first == "" {
+		return m
+	}
+	lists := append(make([]string, 0, len(later)+1), first)
+	for _, value := range later {
+		fields := ParseQuotedString(value)
+		if fields == "" {
+			m["no-cache"] = value
+			return m
+		}
+		lists = append(lists, fields)
+	}
+	m["no-cache"] = quoteString(strings.Join(lists, ","))
 	return m
 }
 
